@@ -15,8 +15,18 @@ Bad(c) == PrintT(<<"BADREC", ri, c>>)
 Is(got, want, c) == IF got = want THEN TRUE ELSE Bad(c)
 Ok(cond, c) == IF cond THEN TRUE ELSE Bad(c)
 
+Distinct(q) == Cardinality({q[j] : j \in 1..Len(q)}) = Len(q)
 RecOK == ri > 0 =>
     LET r == Recs[ri] IN
+    IF r.kind = "layers" THEN      \* complete ensemble sift, layer by layer (every layer averages fresh member decompositions)
+        /\ Is(r.raised, 0, "run.completed")
+        /\ (r.raised = 0 =>
+            /\ Is(r.nlayers_traced, r.ncols, "layers.one_round_of_members_per_component")
+            /\ Ok(\A k \in 1..Len(r.ids) : Len(r.ids[k]) = r.nens /\ Distinct(r.ids[k]), "layers.noise_distinct_per_member")
+            /\ Ok(\A k \in 1..Len(r.neg_ok) : r.neg_ok[k] = 1, "layers.flip_uses_negated_noise")
+            /\ Ok(\A k \in 1..Len(r.mean_ok) : r.mean_ok[k] = 1, "layers.component_is_mean_over_members")
+            /\ Ok(\A k \in 1..Len(r.uncorr) : r.uncorr[k] = 1, "layers.noise_realisations_independent"))
+    ELSE
     /\ Is(r.raised, 0, "run.completed")
     /\ (r.raised = 0 =>
         /\ Is(Len(r.ids), r.nens, "members.one_noise_per_member")
